@@ -234,8 +234,7 @@ def check_cache_sizes(ctx):
         for val, o in outs.items():
             if val is not None and not close_seq(_flat(o), _flat(outs[None]), 1e-12):
                 ctx.violate("GEOMDL_CACHE_SIZE", ["cache_size=" + val], {"GEOMDL_CACHE_SIZE": val}, {"differs_from_unset": True})
-    else:
-        raise core.MachineryError("probe failed with GEOMDL_CACHE_SIZE unset")
+    # (when the probe fails with the variable unset, that failure has been recorded above as a violation: a valid call raised)
 
 
 def _flat(x):
